@@ -1,6 +1,7 @@
 package main
 
 import (
+	"errors"
 	"sync"
 	"sync/atomic"
 
@@ -23,6 +24,11 @@ import (
 
 func init() {
 	props["C17"] = runC17
+	replayers["C17/confparser"] = func(v rt.Violation) string {
+		c := rt.ReplayCtx("C17")
+		c17Configured(c)
+		return c.Report()
+	}
 	replayers["C17/history"] = func(v rt.Violation) string {
 		c := rt.ReplayCtx("C17")
 		c.Serial("replay", func(w *rt.W) {
@@ -624,6 +630,8 @@ func runC17(c *rt.Ctx) {
 	})
 	// the caller refills one buffer with document after document (all five types, every []byte entry point)
 	refillRun(c, c.Pick(30000, 300000), "date", "date-json", "roman", "sem", "size", "size-text", "uu")
+	c17Configured(c)
+	c.Require("configured-parser-call", 24)
 	// inputs bordering inaccessible pages: nothing but the bytes handed over may be touched
 	guardedInputs(c, "C17", "date", []string{"2021-03-04", "20210304", "2021-02-30", "\x01\x00\x00\x07\xe5\x03\x04", "\x01\x00\x00\x07\xe5\x03", "x"})
 	guardedInputs(c, "C17", "roman", []string{"MCMXCIV", "mmxxiv", "IIII", "VX", "i"})
@@ -632,4 +640,63 @@ func runC17(c *rt.Ctx) {
 	guardedInputs(c, "C17", "uu", []string{"f81d4fae-7dec-11d0-a765-00a0c91e6bf6", "urn:uuid:f81d4fae-7dec-11d0-a765-00a0c91e6bf6", "f81d4fae-7dec-11d0-a765-00a0c91e6bf", "u"})
 	c.Require("instantiation-agreement-on-accepted", 10000)
 	c.Require("instantiation-agreement-on-rejected", 10000)
+}
+
+// c17Configured: the exported Parser variables replaced by parsers of the program's own (lenient ones, ones that
+// return a value together with an error, ones that return values the default parser never would). Whatever the
+// configured parser returns: when UnmarshalText/UnmarshalJSON returns an error the receiver is as it was.
+func c17Configured(c *rt.Ctx) {
+	{
+		oD, oR, oS, oZ, oU := date.Parser, roman.Parser, sem.Parser, size.Parser, uu.Parser
+		for mode := 0; mode < 4; mode++ {
+			mode := mode
+			fail := errors.New("configured parser refuses")
+			date.Parser = func(in []byte, r date.Rule) (date.Date, error) {
+				return []date.Date{date.New(2001, 2, 3), {}, date.New(-5, 1, 1), date.New(2001, 2, 3)}[mode], []error{nil, nil, fail, fail}[mode]
+			}
+			roman.Parser = func(in []byte, r roman.Rule) (roman.Number, error) {
+				return []roman.Number{77, 0, 5000000, 77}[mode], []error{nil, nil, fail, fail}[mode]
+			}
+			sem.Parser = func(in []byte, r sem.Rule) (sem.Ver, error) {
+				return []sem.Ver{{Major: 1, PreRelease: "rc.1"}, {Major: 2, PreRelease: "(nightly)", Build: "b d"}, {Major: 3, Build: "\x00"}, {Major: 4, PreRelease: "01"}}[mode], []error{nil, nil, fail, fail}[mode]
+			}
+			size.Parser = func(in []byte, r size.Rule) (size.Size, error) {
+				return []size.Size{1536, 0, ^size.Size(0), 7}[mode], []error{nil, nil, fail, fail}[mode]
+			}
+			uu.Parser = func(in []byte, r uu.Rule) (uu.ID, error) {
+				return []uu.ID{{Higher: 1, Lower: 2}, {}, {Higher: ^uint64(0)}, {Lower: 9}}[mode], []error{nil, nil, fail, fail}[mode]
+			}
+			c.Serial("configured-parsers", func(w *rt.W) {
+				check := func(typ, op string, before, after string, err error) {
+					w.Eval(1)
+					if err != nil && before != after {
+						w.Fail("receiver-changed-on-error-under-configured-parser-"+typ, "confparser", rt.Args("type", typ, "op", op, "mode", mode), after, before, op+" returned an error but changed the receiver (the configured Parser returned "+[]string{"a value", "a zero or unusual value", "a value together with an error", "a value together with an error"}[mode]+")")
+					}
+					w.ClassN("configured-parser-call", 1)
+				}
+				in := []byte("anything")
+				d := date.New(1999, 9, 9)
+				b := d.String()
+				err := d.UnmarshalText(in)
+				check("date", "Date.UnmarshalText", b, d.String(), err)
+				n := roman.Number(14)
+				err = n.UnmarshalText(in)
+				check("roman", "Number.UnmarshalText", "14", fmt.Sprint(uint64(n)), err)
+				v := sem.Ver{Major: 9, Minor: 8, Patch: 7, PreRelease: "old", Build: "old"}
+				bv := fmt.Sprintf("%+v", v)
+				err = v.UnmarshalText(in)
+				check("sem", "Ver.UnmarshalText", bv, fmt.Sprintf("%+v", v), err)
+				z := size.Size(4242)
+				err = z.UnmarshalText(in)
+				check("size", "Size.UnmarshalText", "4242", fmt.Sprint(uint64(z)), err)
+				z = 4242
+				err = z.UnmarshalJSON(in)
+				check("size", "Size.UnmarshalJSON", "4242", fmt.Sprint(uint64(z)), err)
+				id := uu.ID{Higher: 5, Lower: 6}
+				err = id.UnmarshalText(in)
+				check("uu", "ID.UnmarshalText", fmt.Sprint(uu.ID{Higher: 5, Lower: 6}), fmt.Sprint(id), err)
+			})
+		}
+		date.Parser, roman.Parser, sem.Parser, size.Parser, uu.Parser = oD, oR, oS, oZ, oU
+	}
 }
